@@ -1543,7 +1543,109 @@ func isAtomicCall(in ssa.Instruction) (ssa.Value, string, bool) {
 	if !strings.HasPrefix(n, "sync/atomic.") || len(c.Args) == 0 {
 		return nil, "", false
 	}
-	return c.Args[0], strings.TrimPrefix(n, "sync/atomic."), true
+	return resolveAddr(c.Args[0]), strings.TrimPrefix(n, "sync/atomic."), true
+}
+
+func uniqueValues(vs []ssa.Value) []ssa.Value {
+	seen := map[ssa.Value]bool{}
+	var out []ssa.Value
+	for _, v := range vs {
+		if !seen[v] {
+			seen[v] = true
+			out = append(out, v)
+		}
+	}
+	return out
+}
+
+// resolveAddr follows a pointer that was only given a name: a local `p := &x.f` (also when the local is captured
+// by a closure and therefore lives in a cell), a closure's free variable bound to such a pointer, or a parameter
+// of a function literal that is called or started exactly once with such a pointer.
+func resolveAddr(v ssa.Value) ssa.Value {
+	for i := 0; i < 8; i++ {
+		switch t := v.(type) {
+		case *ssa.UnOp:
+			if t.Op != token.MUL {
+				return v
+			}
+			switch a := t.X.(type) {
+			case *ssa.Alloc:
+				st := uniqueValues(storesTo(a))
+				if len(st) != 1 {
+					return v
+				}
+				v = st[0]
+				continue
+			case *ssa.FreeVar:
+				// a captured cell holding the pointer
+				st := uniqueValues(storesToFreeVar(a))
+				if len(st) != 1 {
+					return v
+				}
+				v = st[0]
+				continue
+			}
+			return v
+		case *ssa.FreeVar:
+			fn := t.Parent()
+			if fn == nil || fn.Parent() == nil {
+				return v
+			}
+			idx := -1
+			for k, fv := range fn.FreeVars {
+				if fv == t {
+					idx = k
+				}
+			}
+			var bound ssa.Value
+			n := 0
+			allInstrs(fn.Parent(), func(in ssa.Instruction) {
+				if mc, ok := in.(*ssa.MakeClosure); ok && mc.Fn == ssa.Value(fn) && idx >= 0 && idx < len(mc.Bindings) {
+					bound = mc.Bindings[idx]
+					n++
+				}
+			})
+			if n != 1 {
+				return v
+			}
+			v = bound
+			continue
+		case *ssa.Parameter:
+			fn := t.Parent()
+			if fn == nil || fn.Parent() == nil {
+				return v
+			}
+			idx := -1
+			for k, p := range fn.Params {
+				if p == t {
+					idx = k
+				}
+			}
+			var arg ssa.Value
+			n := 0
+			allInstrs(fn.Parent(), func(in ssa.Instruction) {
+				c := callOf(in)
+				if c == nil || c.IsInvoke() {
+					return
+				}
+				callee := c.StaticCallee()
+				if mc, ok := c.Value.(*ssa.MakeClosure); ok {
+					callee, _ = mc.Fn.(*ssa.Function)
+				}
+				if callee == fn && idx >= 0 && idx < len(c.Args) {
+					arg = c.Args[idx]
+					n++
+				}
+			})
+			if n != 1 {
+				return v
+			}
+			v = arg
+			continue
+		}
+		return v
+	}
+	return v
 }
 
 // conjAtoms decomposes a boolean value built with && (lowered by go/ssa to a
